@@ -21,6 +21,8 @@ CTL = [  # (C type, bits, signed, promoted bits, promoted signed)
     ('unsigned', 32, False, 32, False), ('long', 64, True, 64, True), ('unsigned long', 64, False, 64, False),
     ('long long', 64, True, 64, True), ('unsigned long long', 64, False, 64, False), ('_Bool', 1, False, 32, True),
     ('enum E', 32, False, 32, False),
+    # enumerated types whose underlying type is 64 bits wide: unchanged by the integer promotions, compared as 64-bit quantities
+    ('enum EW', 64, False, 64, False), ('enum ES', 64, True, 64, True),
 ]
 
 
@@ -147,6 +149,10 @@ def cconst(ty, v):
         return '%dL' % v if v > -(1 << 63) else '(-9223372036854775807L - 1)'
     if ty == 'unsigned' or ty == 'enum E':
         return '%du' % v
+    if ty == 'enum EW':
+        return '(%s)%dUL' % (ty, v)
+    if ty == 'enum ES':
+        return '(%s)%s' % (ty, '%dL' % v if v > -(1 << 63) else '(-9223372036854775807L - 1)')
     if v == -2147483648:
         return '(-2147483647 - 1)'
     return str(v)
@@ -192,7 +198,7 @@ def _prog(args):
         if tier == 'quick' and idx == 0 and i == 0:
             n = 1500
         sws.append(gen_switch(rng, i, n))
-    L = ['int printf(const char *, ...);', 'enum E { E0, EBIG = 0xffffffff };']
+    L = ['int printf(const char *, ...);', 'enum E { E0, EBIG = 0xffffffff };', 'enum EW { EW0, EWBIG = 0xffffffffffffffff }; enum ES { ESM = -1, ESBIG = 0x100000001 };']
     for s in sws:
         L += s['src']
     L.append('int main(void) {')
